@@ -126,6 +126,11 @@ structure Script where
   connectOk : Bool       -- rcmd_connect returned a descriptor
   stdout    : Str        -- bytes read from it before EOF (or before the time-out)
   timedOut  : Bool       -- the command time-out fired (state DSH_FAILED)
+  /-- HOW the expiry was noticed: `false` = the watchdog's SIGALRM interrupted xpoll (EINTR, an idle command),
+      `true` = the worker itself at the top of its poll loop (a command that keeps it busy with output; the
+      signal sent meanwhile was lost).  Both paths set `result = DSH_FAILED`, print the diagnostic, send SIGTERM
+      and leave the loop: the field has no influence on `hostOf` — that is what C08.timeout_nonzero states. -/
+  viaLoopTop : Bool := false
   rv        : Int        -- value of rcmd_destroy
   deriving Repr
 
